@@ -753,7 +753,7 @@ Section IfaceIter.
 
   Lemma cap_list_depth : capN <= cap ek (list_depth ek capN).
   Proof.
-    destruct CAP as [_ Hc]. pose proof (int_log_ub capN Hc) as Hub. rewrite cap_pow2. unfold list_depth.
+    pose proof CAP as Hc. unfold capacity_ok in Hc. pose proof (int_log_ub capN Hc) as Hub. rewrite cap_pow2. unfold list_depth.
     eapply N.le_trans; [exact Hub|]. apply pow2_mono. lia.
   Qed.
 
